@@ -1,7 +1,9 @@
 /-
   C20 — serialized forms deserialize to the same value.
   Property statements only (helper lemmas: Proofs/SerdeL.lean, on top of Proofs/TimestampL.lean (C02),
-  Proofs/DeltaL.lean (C06), Props/C19.lean (names)).
+  Proofs/DeltaL.lean (C06), Props/C19.lean (names); Proofs/SerdeStrL.lean for the string forms, on top of
+  Props/C09.lean (default text forms: `Debug` writers, `FromStr` readers) and Proofs/Rfc3339WriteL.lean,
+  Proofs/RenderScanL.lean (the `write_rfc3339` text, C10)).
 
   Model: Model/SerdeTs.lean — the sixteen timestamp helper modules `{chrono::serde, chrono::naive::serde}::
   ts_{seconds, milliseconds, microseconds, nanoseconds}{, _option}` (`serialize`, `deserialize`, the visitors'
@@ -14,15 +16,22 @@
   fit `i64`), data formats as parameters with the trusted behaviour `Faithful`; instants: Spec/InstantSpec.lean,
   Spec/TimestampSpec.lean (`NDTInv` = representation invariant, `NonLeap` = no leap-second representation,
   `TS_MIN/TS_MAX` = first/last representable second).  `/`, `%` on `Int` are floor division and its remainder.
+  String forms: Model/SerdeStr.lean names, per type, the writer `collect_str` runs and the reader `visit_str`
+  calls (`NaiveDateStr`, `NaiveTimeStr`, `NaiveDateTimeStr`, `DateTimeStr`: `.serialize`, `.visit_str`,
+  `deserialize_fixed` / `deserialize_utc`); Spec/SerdeStrSpec.lean sends them through a text format
+  (`strSerializeW`, `strDeserializeV`, `strRoundTrip`; `zoneText off` = `Z` for zero, else `+hh:mm`);
+  Spec/TextFormsSpec.lean is the text of each value (`dateTextOf`, `timeText`, `naiveText 84` = date `T` time,
+  `WholeMinute`); `DateInv` / `TStrict` (a leap second only on second :59) / `ZInv` are the invariants of C09.
 -/
 import Chrono.Proofs.SerdeL
+import Chrono.Proofs.SerdeStrL
 import Chrono.Model.SerdeStr
 import Chrono.Extracted.SerdeLits
 import Chrono.Props.C19
 
 namespace Chrono.Props.C20
 open Chrono Chrono.M Chrono.M.Serde Chrono.Spec Chrono.Spec.Ts Chrono.Spec.Serde Chrono.Proofs.Serde
-open Chrono.Proofs.Ts Chrono.Extracted
+open Chrono.Proofs.Ts Chrono.Extracted Chrono.Spec.Text Chrono.Proofs.SerdeStr
 
 /-! ## data tie -/
 
@@ -411,7 +420,7 @@ theorem names_roundtrip (F : StrFormat) (hF : F.Faithful) :
     unfold strDeserialize strSerialize
     rw [hF]; dsimp only; rw [C19.month_parse_name]; rfl
 
-/-! ## zone-aware date-times: the text form (composed from the writer of C12 and the reader of C13/C14) -/
+/-! ## zone-aware date-times: what the writer cannot express (witnesses of the known findings) -/
 
 /-- Kernel-checked witnesses of the known findings F20 and F22, independent of any reader: the text written
 for a zone-aware value does not determine the instant.  (F20) 12:34:06 at +01:00:50 and 12:34:06 at +01:01 —
@@ -419,8 +428,7 @@ ten seconds apart — are both written "2014-07-24T12:34:06+01:01": the offset i
 wall clock kept.  (F22) 00:00:30 with nanosecond field 1.5·10⁹ (a leap-second representation on a second
 other than :59) and the ordinary 00:00:31.5 are both written "1970-01-01T00:00:31.500Z".  So no reader can
 restore the instant for offsets with a seconds part, nor such leap representations; for whole-minute offsets
-and leap seconds on :59 the round trip is compared on the implementation (harness) and is the subject of
-Props/C09 / Props/C10. -/
+and leap seconds on :59 the round trip is `string_forms_roundtrip_datetime` below. -/
 theorem datetime_text_collisions :
     DateTimeStr.serialize ⟨⟨dateOfYo 2014 205, ⟨41596, 0⟩⟩, 3650⟩ = .ok (some [50, 48, 49, 52, 45, 48, 55, 45, 50, 52, 84, 49, 50, 58, 51, 52, 58, 48, 54, 43, 48, 49, 58, 48, 49]) ∧
     DateTimeStr.serialize ⟨⟨dateOfYo 2014 205, ⟨41586, 0⟩⟩, 3660⟩ = .ok (some [50, 48, 49, 52, 45, 48, 55, 45, 50, 52, 84, 49, 50, 58, 51, 52, 58, 48, 54, 43, 48, 49, 58, 48, 49]) ∧
@@ -444,21 +452,138 @@ theorem datetime_text_beyond_reader :
 
 /-! ## string forms of dates, times and date-times -/
 
+/-- **NaiveDate** through any faithful text format.  `Serialize for NaiveDate` is `collect_str` of the
+`Debug` form (`TextForms.date_debug`), `Deserialize` is `visit_str` = `FromStr` (`TextForms.date_from_str`),
+both the functions Props/C09 is about.  For every date of the supported range: serializing succeeds and
+stores the text `[sign]YYYY-MM-DD` of Spec/TextFormsSpec.lean, and deserializing what was stored gives the
+date back (no error, no panic).  No restriction beyond validity. -/
+theorem string_forms_roundtrip_date (F : StrFormat) (hF : F.Faithful) (d : Date) (hd : DateInv d) :
+    strSerializeW F NaiveDateStr.serialize d = .ok (.ok (F.putStr (dateTextOf d))) ∧
+    strRoundTrip F NaiveDateStr.serialize NaiveDateStr.visit_str d = .ok (.ok d) := by
+  obtain ⟨hw, hr⟩ := C09.roundtrip_NaiveDate d hd
+  obtain ⟨a, _, c⟩ := glue_roundtrip F hF NaiveDateStr.serialize NaiveDateStr.visit_str d d _ hw
+    (visitOf_ok _ _ hr)
+  exact ⟨a, c⟩
 
-/-- The serde glue of `NaiveDate`, `NaiveTime`, `NaiveDateTime` (writer = `Debug`, reader = `FromStr`) and
-`DateTime<Tz>` (writer = RFC 3339 `AutoSi` with `Z`, reader = `FromStr for DateTime<FixedOffset>`) adds nothing
-to the text round trip: through any faithful text format, `deserialize (serialize v) = v` for every `v` on
-which the type's own `parse (print v) = v` holds.
-MISSING for the full statement `string_forms_roundtrip`: the writers / readers themselves are modelled and
-proved by Props/C09 (default text forms) and Props/C10 (RFC 3339), which are not part of this file; here
-`print`, `parse` and their round trip `hrt` are hypotheses, and the four types are compared on the
-implementation only (harness: value after a trip through serde_json and through bincode). -/
-theorem string_forms_roundtrip_partial {α : Type} (F : StrFormat) (hF : F.Faithful)
-    (print : α → List Nat) (parse : List Nat → Option α) (P : α → Prop)
-    (hrt : ∀ v, P v → parse (print v) = some v) (v : α) (hv : P v) :
-    strDeserialize F parse (strSerialize F print v) = .ok v := by
-  unfold strDeserialize strSerialize
-  rw [hF]; dsimp only; rw [hrt v hv]; rfl
+/-- **NaiveTime** through any faithful text format (`collect_str(&self)`: `Display`, which forwards to
+`Debug` = `TextForms.time_debug`; `visit_str` = `FromStr` = `TextForms.time_from_str`).  Domain: every time
+of day whose leap-second representation, if any, sits on a second :59 (`TStrict`, the domain of C09; the
+values the public constructors build).  A nanosecond field ≥ 10⁹ on another second prints as the following
+second and does not come back — known finding F22, excluded by `TStrict`. -/
+theorem string_forms_roundtrip_time (F : StrFormat) (hF : F.Faithful) (t : Time) (ht : TStrict t) :
+    strSerializeW F NaiveTimeStr.serialize t = .ok (.ok (F.putStr (timeText t))) ∧
+    strRoundTrip F NaiveTimeStr.serialize NaiveTimeStr.visit_str t = .ok (.ok t) := by
+  obtain ⟨hw, hr⟩ := C09.roundtrip_NaiveTime t ht
+  obtain ⟨a, _, c⟩ := glue_roundtrip F hF NaiveTimeStr.serialize NaiveTimeStr.visit_str t t _ hw
+    (visitOf_ok (.ok (TextForms.time_from_str (timeText t))) t (by rw [hr]))
+  exact ⟨a, c⟩
+
+/-- **NaiveDateTime** through any faithful text format (`collect_str` of the `Debug` form, date `T` time =
+`TextForms.naive_debug`; `visit_str` = `FromStr` = `TextForms.naive_from_str`).  Domain: every valid value
+with a leap second only on second :59 (F22 as for `NaiveTime`).  The `Display` form, which `FromStr` refuses
+(known finding F13), is not what serde writes. -/
+theorem string_forms_roundtrip_naive (F : StrFormat) (hF : F.Faithful) (dt : NaiveDT) (h : NDTInv dt)
+    (hs : TStrict dt.time) :
+    strSerializeW F NaiveDateTimeStr.serialize dt = .ok (.ok (F.putStr (naiveText 84 dt))) ∧
+    strRoundTrip F NaiveDateTimeStr.serialize NaiveDateTimeStr.visit_str dt = .ok (.ok dt) := by
+  obtain ⟨hw, hr⟩ := C09.roundtrip_NaiveDateTime_debug dt h hs
+  obtain ⟨a, _, c⟩ := glue_roundtrip F hF NaiveDateTimeStr.serialize NaiveDateTimeStr.visit_str dt dt _ hw
+    (visitOf_ok _ _ hr)
+  exact ⟨a, c⟩
+
+/-- **DateTime<Tz>** (given by its UTC reading and its fixed offset `offset.fix()`) through any faithful text
+format.  The writer is `write_rfc3339(overflowing_naive_local, offset, AutoSi, use_z = true)`
+(`DateTimeStr.serialize`), the reader `FromStr for DateTime<FixedOffset>` (`TextForms.fixed_from_str`, the
+relaxed reader of C09 — not `parse_from_rfc3339`), followed by `with_timezone(&Utc)` when the target is
+`DateTime<Utc>`.  Domain = the domain of `C09.roundtrip_DateTime_FixedOffset`:
+  * the offset is a whole number of minutes, less than a day (`WholeMinute`; otherwise F20: the offset is
+    rounded and the instant moves, F23: ±23:59:30 and beyond is written `24:00`, F24);
+  * a leap second sits on second :59 (`TStrict`; otherwise F22);
+  * the wall clock is inside `NaiveDate`'s range (`naive_local z = .ok l`; otherwise F21 / F25: written, but
+    refused by the reader).
+Then: serializing succeeds and stores the wall clock as date `T` time followed by `Z` (offset zero) or
+`+hh:mm` / `-hh:mm`; read as `DateTime<FixedOffset>` it is the same value (same instant, same offset); read
+as `DateTime<Utc>` it is the same instant at offset zero. -/
+theorem string_forms_roundtrip_datetime (F : StrFormat) (hF : F.Faithful) (z : Zoned) (hz : ZInv z)
+    (hm : WholeMinute z.off) (hs : TStrict z.utc.time) (l : NaiveDT) (hl : Zoned.naive_local z = .ok l) :
+    strSerializeW F DateTimeStr.serialize z = .ok (.ok (F.putStr (naiveText 84 l ++ zoneText z.off))) ∧
+    strRoundTrip F DateTimeStr.serialize DateTimeStr.deserialize_fixed z = .ok (.ok z) ∧
+    strRoundTrip F DateTimeStr.serialize DateTimeStr.deserialize_utc z = .ok (.ok ⟨z.utc, 0⟩) := by
+  have hw := serde_datetime_text z hz hm hs l hl
+  have hr := serde_datetime_read z hz hm hs l hl
+  have hv : DateTimeStr.visit_str (naiveText 84 l ++ zoneText z.off) = .ok (.ok z) := visitOf_ok _ _ hr
+  obtain ⟨a, _, c⟩ := glue_roundtrip F hF DateTimeStr.serialize DateTimeStr.deserialize_fixed z z _ hw hv
+  obtain ⟨_, _, e⟩ := glue_roundtrip F hF DateTimeStr.serialize DateTimeStr.deserialize_utc z ⟨z.utc, 0⟩ _ hw
+    (by unfold DateTimeStr.deserialize_utc; rw [hv]; rfl)
+  exact ⟨a, c, e⟩
+
+/-- **DateTime<Utc>** (its UTC reading `u`): every valid value with a leap second only on :59 is stored as
+date `T` time `Z` and comes back as itself, into `DateTime<Utc>` and into `DateTime<FixedOffset>` (offset
+zero).  No range restriction: the wall clock of a UTC value is the value. -/
+theorem string_forms_roundtrip_datetime_utc (F : StrFormat) (hF : F.Faithful) (u : NaiveDT) (hu : NDTInv u)
+    (hs : TStrict u.time) :
+    strSerializeW F DateTimeStr.serialize ⟨u, 0⟩ = .ok (.ok (F.putStr (naiveText 84 u ++ [90]))) ∧
+    strRoundTrip F DateTimeStr.serialize DateTimeStr.deserialize_utc ⟨u, 0⟩ = .ok (.ok ⟨u, 0⟩) ∧
+    strRoundTrip F DateTimeStr.serialize DateTimeStr.deserialize_fixed ⟨u, 0⟩ = .ok (.ok ⟨u, 0⟩) := by
+  have hz : ZInv ⟨u, 0⟩ := ⟨hu, by show OffValid 0; unfold OffValid; omega⟩
+  obtain ⟨a, b, c⟩ := string_forms_roundtrip_datetime F hF ⟨u, 0⟩ hz (by show WholeMinute 0; unfold WholeMinute; omega) hs u
+    (naive_local_utc u hu)
+  exact ⟨a, c, b⟩
+
+/-- The restrictions are needed, reader included (known findings F20 and F22 end to end on the models): the
+value 12:34:06 at +01:00:50 is read back as the *different* value 12:34:06 at +01:01 (ten seconds earlier),
+and 00:00:30 with nanosecond field 1.5·10⁹ as the ordinary 00:00:31.5 — both because the text written
+coincides with the text of that other value (`datetime_text_collisions`), which is in the domain of
+`string_forms_roundtrip_datetime` and therefore read back as itself. -/
+theorem datetime_outside_domain_comes_back_different :
+    DateTimeStr.roundTrip ⟨⟨dateOfYo 2014 205, ⟨41596, 0⟩⟩, 3650⟩ = .ok (.ok ⟨⟨dateOfYo 2014 205, ⟨41586, 0⟩⟩, 3660⟩) ∧
+    DateTimeStr.roundTrip ⟨⟨dateOfYo 1970 1, ⟨30, 1500000000⟩⟩, 0⟩ = .ok (.ok ⟨⟨dateOfYo 1970 1, ⟨31, 500000000⟩⟩, 0⟩) := by
+  obtain ⟨c1, c2, _, c4, c5⟩ := datetime_text_collisions
+  have key : ∀ (bad good : Zoned) (text : List Nat), DateTimeStr.serialize bad = .ok (some text) →
+      DateTimeStr.serialize good = .ok (some text) → ZInv good → WholeMinute good.off → TStrict good.utc.time →
+      (∃ l, Zoned.naive_local good = .ok l) → DateTimeStr.roundTrip bad = .ok (.ok good) := by
+    intro bad good text hb hg hz hm hs ⟨l, hl⟩
+    have hw := serde_datetime_text good hz hm hs l hl
+    rw [hg] at hw
+    injection hw with hw; injection hw with hw
+    unfold DateTimeStr.roundTrip
+    rw [hb]
+    show DateTimeStr.visit_str text = _
+    rw [hw]
+    exact visitOf_ok _ _ (serde_datetime_read good hz hm hs l hl)
+  refine ⟨key _ _ _ c1 c2 ?_ ?_ ?_ ⟨⟨dateOfYo 2014 205, ⟨45246, 0⟩⟩, ?_⟩,
+    key _ _ _ c4 c5 ?_ ?_ ?_ ⟨⟨dateOfYo 1970 1, ⟨31, 500000000⟩⟩, ?_⟩⟩
+  · unfold ZInv NDTInv OffValid; decide +kernel
+  · unfold WholeMinute; decide
+  · decide +kernel
+  · decide +kernel
+  · unfold ZInv NDTInv OffValid; decide +kernel
+  · unfold WholeMinute; decide
+  · decide +kernel
+  · decide +kernel
+
+/-- non-vacuity of the string-form theorems: the first date of the range (signed six-digit year), a leap
+second with a fraction, the last representable naive value, and the leap second 2016-12-31T23:59:60.5Z seen
+at +05:30 (wall clock in the next year) meet the hypotheses; the texts the modelled writers produce for them -/
+example :
+    DateInv (dateOfYo (-262143) 1) ∧
+    NaiveDateStr.serialize (dateOfYo (-262143) 1) = .ok (some (asciiBytes "-262143-01-01")) ∧
+    TStrict ⟨86399, 1500000000⟩ ∧
+    NaiveTimeStr.serialize ⟨86399, 1500000000⟩ = .ok (some (asciiBytes "23:59:60.500")) ∧
+    NDTInv NaiveDT.MAX ∧ TStrict NaiveDT.MAX.time ∧
+    NaiveDateTimeStr.serialize NaiveDT.MAX = .ok (some (asciiBytes "+262142-12-31T23:59:59.999999999")) := by
+  unfold NDTInv
+  decide +kernel
+example :
+    let z : Zoned := ⟨⟨dateOfYo 2016 366, ⟨86399, 1500000000⟩⟩, 19800⟩
+    ZInv z ∧ WholeMinute z.off ∧ TStrict z.utc.time ∧
+    Zoned.naive_local z = .ok ⟨dateOfYo 2017 1, ⟨19799, 1500000000⟩⟩ ∧
+    DateTimeStr.serialize z = .ok (some (asciiBytes "2017-01-01T05:29:60.500+05:30")) ∧
+    DateTimeStr.serialize ⟨z.utc, 0⟩ = .ok (some (asciiBytes "2016-12-31T23:59:60.500Z")) ∧
+    NDTInv NaiveDT.MIN ∧ TStrict NaiveDT.MIN.time ∧
+    DateTimeStr.serialize ⟨NaiveDT.MIN, 0⟩ = .ok (some (asciiBytes "-262143-01-01T00:00:00Z")) := by
+  unfold ZInv NDTInv OffValid WholeMinute
+  decide +kernel
 
 /-- non-vacuity: the range ends of `TimeDelta`, a negative nanosecond field, the first pair out of range;
 a faithful text format exists -/
